@@ -16,8 +16,3 @@ type Membership = rsm.VerifC07Membership
 func NewMembership(shardID uint64, replicaID uint64, ordered bool) *Membership {
 	return rsm.VerifC07NewMembership(shardID, replicaID, ordered)
 }
-
-// AddressEqual is rsm.addressEqual.
-func AddressEqual(a string, b string) bool {
-	return rsm.VerifC07AddressEqual(a, b)
-}
